@@ -22,13 +22,30 @@ import (
 //	FE <generic function> <key module> <parameter types joined by ;>   every entry of GenericFuncInfo.Instantiations
 //	FI <errors>
 type callCollector struct {
-	calls []*ast.FuncCall
+	calls []*ast.FuncDecl // the function every call / overloaded operator expression is bound to, in source order
 }
 
 func (*callCollector) Visitor() {}
 func (c *callCollector) VisitFuncCall(e *ast.FuncCall) ast.VisitResult {
-	c.calls = append(c.calls, e)
+	c.calls = append(c.calls, e.Func)
 	return ast.VisitRecurse
+}
+
+// operator expressions served by an overload (instantiated through typechecker.findOverload / findOverloadCast)
+func (c *callCollector) overload(o *ast.OperatorOverload) ast.VisitResult {
+	if o != nil {
+		c.calls = append(c.calls, o.Decl)
+	}
+	return ast.VisitRecurse
+}
+func (c *callCollector) VisitBinaryExpr(e *ast.BinaryExpr) ast.VisitResult {
+	return c.overload(e.OverloadedBy)
+}
+func (c *callCollector) VisitUnaryExpr(e *ast.UnaryExpr) ast.VisitResult {
+	return c.overload(e.OverloadedBy)
+}
+func (c *callCollector) VisitCastExpr(e *ast.CastExpr) ast.VisitResult {
+	return c.overload(e.OverloadedBy)
 }
 
 func base(m *ast.Module) string {
@@ -73,14 +90,14 @@ func funinstCommand(fs []string, out *bufio.Writer) bool {
 		m := all[n]
 		cc := &callCollector{}
 		ast.VisitModule(m, cc)
-		for _, c := range cc.calls {
-			if c.Func == nil || c.Func.GenericInstantiation == nil {
+		for _, fn := range cc.calls {
+			if fn == nil || fn.GenericInstantiation == nil {
 				continue
 			}
-			if _, ok := seen[c.Func]; !ok {
-				seen[c.Func] = len(seen)
+			if _, ok := seen[fn]; !ok {
+				seen[fn] = len(seen)
 			}
-			fmt.Fprintf(out, "FC %s %s %d\n", n, c.Func.GenericInstantiation.GenericDecl.Name(), seen[c.Func])
+			fmt.Fprintf(out, "FC %s %s %d\n", n, fn.GenericInstantiation.GenericDecl.Name(), seen[fn])
 		}
 		for _, stmt := range m.Ast.Statements {
 			ds, ok := stmt.(*ast.DeclStmt)
